@@ -193,9 +193,10 @@ func (h *HyperLogLog32) UnmarshalBinary(b []byte) error {
 	if err != nil {
 		return err
 	}
-	if h.hash == nil {
-		h.hash = hash32For(srcHash)
-		if h.hash == nil {
+	hash := h.hash
+	if hash == nil {
+		hash = hash32For(srcHash)
+		if hash == nil {
 			return fmt.Errorf("card: hash function not set and no hash registered for %q", srcHash)
 		}
 	} else {
@@ -204,19 +205,25 @@ func (h *HyperLogLog32) UnmarshalBinary(b []byte) error {
 			return fmt.Errorf("card: mismatched hash function: dst=%s src=%s", dstHash, srcHash)
 		}
 	}
-	err = dec.Decode(&h.p)
+	// Decode into temporaries so that a rejected
+	// input leaves the receiver as it was.
+	var p uint8
+	err = dec.Decode(&p)
 	if err != nil {
 		return err
 	}
-	h.m = uint32(1) << h.p
-	h.register = h.register[:0]
-	err = dec.Decode(&h.register)
+	var register []uint8
+	err = dec.Decode(&register)
 	if err != nil {
 		return err
 	}
-	if h.p < 4 || w32 <= h.p || len(h.register) != 1<<h.p {
+	if p < 4 || w32 <= p || len(register) != 1<<p {
 		return errors.New("card: register length does not match precision")
 	}
+	h.hash = hash
+	h.p = p
+	h.m = uint32(1) << p
+	h.register = register
 	return nil
 }
 
